@@ -265,3 +265,22 @@ Fixpoint safe_ty (fuel : nat) (e : env) (t : ty) : bool :=
   end end.
 Definition ok_out {A} (r : dres A) : Prop := match r with DPanic _ | DHuge => False | _ => True end.
 Definition total_out {A} (r : dres A) : Prop := match r with DOk _ _ | DErr => True | _ => False end.
+
+(* ---------- C06: the wire types a reader of IDL type t admits ---------- *)
+Definition adm_int (bits : Z) (ty : N) : bool :=
+  (ty =? tZERO) || (ty =? tBYTE) || ((ty =? tSHORT) && (16 <=? bits)%Z) || ((ty =? tINT) && (32 <=? bits)%Z)
+  || ((ty =? tLONG) && (64 <=? bits)%Z).
+Definition adm (t : ty) (ty : N) : bool :=
+  match t with
+  | TBool | TI8 => adm_int 8 ty
+  | TU8 | TI16 => adm_int 16 ty
+  | TU16 | TI32 | TEnum => adm_int 32 ty
+  | TU32 | TI64 => adm_int 64 ty
+  | TF32 => (ty =? tZERO) || (ty =? tFLOAT)
+  | TF64 => (ty =? tZERO) || (ty =? tFLOAT) || (ty =? tDOUBLE)
+  | TStr => (ty =? tSTR4) || (ty =? tSTR1)
+  | TVec x => (ty =? tLIST) || ((ty =? tSIMPLE) && is_byte x)
+  | TArr _ _ => ty =? tLIST
+  | TMap _ _ => ty =? tMAP
+  | TStruct _ => ty =? tSB
+  end.
